@@ -164,8 +164,9 @@ Proof.
     replace (i <? 0) with false by (symmetry; apply Z.ltb_ge; lia). replace (i >=? dev_count (rn r)) with false by (symmetry; rewrite Z.geb_leb; apply Z.leb_gt; lia).
     cbn [orb]. split; [|reflexivity]. destruct (send_msg (rn r) (claim_msg (get_dev (rn r) i) 255) i) as [[n1 ev] ok]. reflexivity.
   - (* ISO request 126998 *)
-    intros r q addressed i Hi CS. split.
-    + unfold respond_iso_request. rewrite (chk_dev_in r i Hi), CS. cbn [Z.eqb Pos.eqb]. destruct r; reflexivity.
+    intros r q addressed i Hi CS NE. split.
+    + unfold respond_iso_request. rewrite (chk_dev_in r i Hi), CS. cbn [Z.eqb Pos.eqb].
+      assert (E: with_rn r (rn r) = r) by (destruct r; reflexivity). rewrite E. destruct (c_confinfo (r_cfg r)); [congruence|reflexivity].
     + intros r1 ev ok RS. unfold send_config_info. rewrite (chk_dev_in r i Hi), RS. reflexivity.
 Qed.
 
